@@ -1172,7 +1172,8 @@ class BayesianNetwork(DAG):
         if adj_model.cpds:
             for node in nodes:
                 cpd = adj_model.get_cpds(node=node)
-                cpd.marginalize(cpd.variables[1:], inplace=True)
+                if cpd is not None:
+                    cpd.marginalize(cpd.variables[1:], inplace=True)
         return adj_model
 
     def simulate(
